@@ -382,6 +382,63 @@ func main() {
 			}
 		}
 	}
+	// ---- every field the configuration reload assigns is shared state: whatever `OnReload` writes through
+	// a selector (a field of the manager, of its configuration, of anything reachable from them) joins the
+	// protected fields, guarded by the mutex OnReload holds in write mode at that assignment ("-" if it
+	// holds none: then no access can be covered). Fields that are listed above keep their guard.
+	var reloadWritten [][2]string
+	for _, p := range pkgs {
+		for _, f := range p.Files {
+			for _, d := range f.Decls {
+				fd, ok := d.(*ast.FuncDecl)
+				if !ok || fd.Body == nil || fd.Name.Name != "OnReload" || fd.Recv == nil {
+					continue
+				}
+				tmp := &analyzer{funcs: a.funcs, consumed: map[ast.Node]bool{}}
+				tmp.analyse("OnReload", fd.Body)
+				r := tmp.rows[0]
+				seen := map[string]bool{}
+				ast.Inspect(fd.Body, func(x ast.Node) bool {
+					as, ok := x.(*ast.AssignStmt)
+					if !ok {
+						return true
+					}
+					for _, l := range as.Lhs {
+						e := l
+						for {
+							if ix, ok := e.(*ast.IndexExpr); ok {
+								e = ix.X
+							} else if pe, ok := e.(*ast.ParenExpr); ok {
+								e = pe.X
+							} else if st, ok := e.(*ast.StarExpr); ok {
+								e = st.X
+							} else {
+								break
+							}
+						}
+						sel, ok := e.(*ast.SelectorExpr)
+						if !ok || seen[sel.Sel.Name] {
+							continue
+						}
+						seen[sel.Sel.Name] = true
+						g := "-"
+						for _, mu := range muOrder {
+							if r.held(mu, sel.Pos()) == "W" {
+								g = mu
+								break
+							}
+						}
+						reloadWritten = append(reloadWritten, [2]string{sel.Sel.Name, g})
+						if protected[sel.Sel.Name] == "" {
+							protected[sel.Sel.Name] = g
+						}
+					}
+					return true
+				})
+			}
+		}
+	}
+	sort.Slice(reloadWritten, func(i, j int) bool { return reloadWritten[i][0] < reloadWritten[j][0] })
 	var pkgKeys []string
 	for k := range pkgs {
 		pkgKeys = append(pkgKeys, k)
@@ -463,6 +520,14 @@ func main() {
 			}
 			fmt.Fprintf(&b, "(%q, %q)", k, protected[k])
 		}
+	}
+	b.WriteString("]\n\n")
+	b.WriteString("/-- every field `OnReload` assigns through a selector, with the mutex it holds in write mode at that\nassignment (\"-\": none) -/\ndef reloadWrittenFields : List (String × String) := [")
+	for i, x := range reloadWritten {
+		if i > 0 {
+			b.WriteString(", ")
+		}
+		fmt.Fprintf(&b, "(%q, %q)", x[0], x[1])
 	}
 	b.WriteString("]\n\n")
 	mode := func(m string) string {
